@@ -618,6 +618,14 @@ def handleImplied (j : Json) : Except String Json := do
   let col := Implied.column d (← getNat j "id") (← getNat j "n") lf (fun dep u => sq.at dep u)
   return Json.mkObj [("ok", Json.arr (col.map (fun x => match x with | some v => toJson v | none => Json.null)).toArray)]
 
+def handleFill (j : Json) : Except String Json := do
+  let d ← parseDesign (← j.getObjVal? "design")
+  let sq ← parseSeq (← j.getObjVal? "cols")
+  let lf ← parseLFactor (← j.getObjVal? "lfactor")
+  match Fill.fillColumn d (← getNat j "id") lf (fun dep u => sq.at dep u) (← getNat j "start") (← getNat j "stop") with
+  | .ok col => return Json.mkObj [("ok", Json.arr (col.map (fun x => match x with | some v => toJson v | none => Json.null)).toArray)]
+  | .error e => return errJson e
+
 def handle (j : Json) : Except String Json := do
   let op ← getStr j "op"
   match op with
@@ -633,6 +641,7 @@ def handle (j : Json) : Except String Json := do
   | "conform" => handleConform j
   | "pipeline" => handlePipeline j
   | "derive" => handleDerive j
+  | "fill" => handleFill j
   | "randomgen" => handleRandomGen j
   | "decode" => handleDecode j
   | "implied" => handleImplied j
